@@ -3,7 +3,10 @@ record which checks report a VIOLATION (and whether with a concrete failing inpu
 seeded/MATRIX.md and seeded/matrix.json, and appends the minimised failing inputs to harness/corpus/<Cxx>.jsonl (which every
 check runs first).  /repo must be clean; it is left clean.
 
-usage: seed_matrix.py [--root seeded|benign] [--only C01-m1,...] [--props C01,C02,...] [--jobs 4]
+usage: seed_matrix.py [--root seeded|benign] [--only C01-m1,...] [--props C01,C02,...] [--jobs 4] [--shard i/n] [--merge]
+--shard i/n: work on every n-th change starting at i, in a worktree of /repo and a copy of the Lean project of its own under
+/tmp (created, used through VERIF_REPO / VERIF_LEAN_DIR, removed afterwards), writing <root>/matrix.<i>.json; several shards can run side
+by side and /repo itself is not touched.  --merge: combine the shard files into matrix.json and write MATRIX.md.
 With --root benign the changes under benign/ (behaviour-preserving rewrites) are run instead: every VIOLATION there is a false
 alarm to be looked at; nothing is added to the corpus.
 """
@@ -22,8 +25,12 @@ def sh(cmd, **kw):
     return subprocess.run(cmd, shell=True, capture_output=True, text=True, **kw)
 
 
+ENV = ""
+REPO = "/repo"
+
+
 def run_check(prop):
-    r = sh(f"cd {V} && ./check {prop} --tier quick", timeout=2400)
+    r = sh(f"cd {V} && {ENV} ./check {prop} --tier quick", timeout=2400)
     m = re.search(r"VIOLATION property=(\S+) replay=(\S+)( no-failing-input-found)?", r.stdout)
     return prop, r.returncode, (m.group(2) if m else None), bool(m and m.group(3)), r.stdout[-600:]
 
@@ -38,13 +45,37 @@ def main():
     if "--props" in args:
         props = args[args.index("--props") + 1].split(",")
     jobs = int(args[args.index("--jobs") + 1]) if "--jobs" in args else 4
-    assert sh("git -C /repo status --porcelain").stdout.strip() == "", "repo not clean"
-    mpath = os.path.join(V, root, "matrix.json")
+    global ENV, REPO
+    shard = None
+    if "--shard" in args:
+        i, n = map(int, args[args.index("--shard") + 1].split("/"))
+        shard = i
+        seeds = seeds[i::n]
+        REPO = f"/tmp/mx_repo_{i}"
+        lean = f"/tmp/mx_lean_{i}"
+        sh(f"git -C /repo worktree remove --force {REPO}; rm -rf {REPO} {lean}")
+        assert sh(f"git -C /repo worktree add --detach {REPO} HEAD").returncode == 0
+        assert sh(f"cp -a {V}/lean {lean}").returncode == 0
+        ENV = f"VERIF_REPO={REPO} VERIF_LEAN_DIR={lean}"
+    if "--merge" in args:
+        merged = {}
+        for f in sorted(glob.glob(os.path.join(V, root, "matrix.*.json"))):
+            merged.update(json.load(open(f)))
+            os.remove(f)
+        mp = os.path.join(V, root, "matrix.json")
+        if os.path.exists(mp):
+            old = json.load(open(mp))
+            old.update(merged)
+            merged = old
+        json.dump(merged, open(mp, "w"), indent=1)
+        seeds = []
+    assert "--merge" in args or sh(f"git -C {REPO} status --porcelain").stdout.strip() == "", "repo not clean"
+    mpath = os.path.join(V, root, "matrix.json" if shard is None else f"matrix.{shard}.json")
     matrix = json.load(open(mpath)) if os.path.exists(mpath) else {}
     os.makedirs(os.path.join(V, "harness", "corpus"), exist_ok=True)
     for sid in seeds:
         patch = os.path.join(V, root, sid, "patch.diff")
-        a = sh(f"git -C /repo apply {patch}")
+        a = sh(f"git -C {REPO} apply {patch}")
         if a.returncode:
             print(sid, "patch does not apply", a.stderr)
             continue
@@ -70,12 +101,16 @@ def main():
                             if line not in have and root == "seeded":
                                 open(cp, "a").write(line + "\n")
         finally:
-            sh("git -C /repo checkout -- .")
+            sh(f"git -C {REPO} checkout -- .")
         matrix[sid] = row
         json.dump(matrix, open(mpath, "w"), indent=1)
         caught = [p for p in props if row.get(p, {}).get("violation")]
         print(sid, "caught by", caught, "infrastructure:", [p for p in props if row.get(p, {}).get("exit") not in (0, 1)], flush=True)
-    # table
+    # table (from the merged file when shards were used)
+    if shard is not None:
+        sh(f"git -C /repo worktree remove --force {REPO}; rm -rf /tmp/mx_lean_{shard}")
+        return 0
+    matrix = json.load(open(os.path.join(V, root, "matrix.json"))) if os.path.exists(os.path.join(V, root, "matrix.json")) else matrix
     allprops = ["C%02d" % i for i in range(1, 20)]
     with open(os.path.join(V, root, "MATRIX.md"), "w") as f:
         f.write(("# Which quick check reports which seeded change\n\n" if root == "seeded" else
@@ -88,7 +123,10 @@ def main():
                 r = matrix[sid].get(p)
                 cells.append(" " if r is None else "!" if r["exit"] not in (0, 1) else "X" if r["concrete_input"] else "x" if r["violation"] else ".")
             f.write(f"| {sid} | " + " | ".join(cells) + " |\n")
-    assert sh("git -C /repo status --porcelain").stdout.strip() == "", "repo not clean afterwards"
+    assert "--merge" in args or sh(f"git -C {REPO} status --porcelain").stdout.strip() == "", "repo not clean afterwards"
+    if shard is not None:
+        sh(f"git -C /repo worktree remove --force {REPO}; rm -rf /tmp/mx_lean_{shard}")
+        return 0
 
 
 if __name__ == "__main__":
